@@ -26,6 +26,21 @@ def _observers():
         ("arrow", lambda df: df.arrow().num_rows),
         ("display", lambda df: df.display(limit=2, colorize=False)),
         ("markdown", lambda df: df.markdown(limit=2)),
+        ("markdown-all", lambda df: df.markdown(limit=0)),
+        ("markdown-neg", lambda df: df.markdown(limit=-1)),
+        ("display-all", lambda df: df.display(limit=0, colorize=False)),
+        ("display-types", lambda df: df.display(limit=1, show_types=True, colorize=True)),
+        ("pandas", lambda df: df.pandas().shape),
+        ("arrow-size", lambda df: df.arrow(size=1).num_rows),
+        ("batches", lambda df: [b.rowcount for b in df.to_batches(2)]),
+        ("filter", lambda df: df.filter([True] * df.rowcount).rowcount),
+        ("take", lambda df: df.take([0]).rowcount),
+        ("select", lambda df: df.select(list(df.column_names)[:1]).rowcount),
+        ("add", lambda df: (df + df).rowcount),
+        ("description", lambda df: df.description),
+        ("hash", lambda df: hash(df)),
+        ("repr", lambda df: repr(df)),
+        ("group", lambda df: df.group_by(list(df.column_names)[:1]).count().rowcount if df.columncount else None),
         ("str", lambda df: str(df)),
         ("row", lambda df: df.row(0) if df.rowcount else None),
         ("column_names", lambda df: df.column_names),
